@@ -16,7 +16,7 @@ global layout usize is size == 8;
 pub trait Codec {
     spec fn dec_count(data: Seq<u8>) -> Option<(usize, usize)>;
     proof fn dec_bounds(data: Seq<u8>)
-        ensures Self::dec_count(data) matches Some((n, _)) ==> 0 < n <= data.len();
+        ensures Self::dec_count(data) matches Some((n, _)) ==> 0 < n <= data.len() && n <= 10;
     fn read_count(data: &[u8]) -> (r: Option<(usize, usize)>)
         ensures r == Self::dec_count(data@);
     /// the bytes `encode_count(n)` produces: between 1 and 10, and `read_count` reads them back (ASSUMED; for Leb128
@@ -88,6 +88,7 @@ impl<'a, C: Codec> BoolLoadIter<'a, C> {
             final(self).target_segments == old(self).target_segments,
             final(self).slabs@.len() == old(self).slabs@.len() + 1,
             final(self).slabs@.last().segments == old(self).slab_segs, final(self).slabs@.last().len == old(self).slab_items,
+            final(self).slabs@.last().tail == old(self).tail, final(self).tail == old(self).tail,
 //@ end
 
 //@ fn rust/hexane/src/bool.rs | impl<'a, C: Codec> BoolLoadIter<'a, C> | try_next_run
@@ -101,8 +102,14 @@ impl<'a, C: Codec> BoolLoadIter<'a, C> {
             // a run is never empty, was read from the input, and carries the value of its position (runs alternate from false)
             r matches Ok(Some(run)) ==> run.count > 0 && final(self).pos > old(self).pos && run.value == ((final(self).run_index - 1) % 2 == 1),
             r matches Ok(None) ==> final(self).pos >= final(self).data.len(),
+            // `tail` is the width of the header of the run just returned, and a slab cut by this step closes on that header
+            r matches Ok(Some(run)) ==> final(self).tail as int <= final(self).pos - old(self).pos
+                && C::dec_count(final(self).data@.subrange(final(self).pos - final(self).tail as int, final(self).data.len() as int)) == Some((final(self).tail as usize, run.count)),
+            r is Ok ==> (final(self).slabs@.len() == old(self).slabs@.len()
+                || (final(self).slabs@.len() == old(self).slabs@.len() + 1 && final(self).slabs@.last().tail == final(self).tail)),
 //@   loop 1
             invariant self.wf(), self.data == old(self).data, self.pos >= old(self).pos, self.target_segments == old(self).target_segments,
+                self.slabs@.len() == old(self).slabs@.len(),
             decreases self.data.len() - self.pos,
 //@   before /let \(cb, count\) = /
             proof { C::dec_bounds(self.data@.subrange(self.pos as int, self.data.len() as int)); }
